@@ -242,7 +242,7 @@ impl Elab {
 }
 
 /// returns (program, α-renamed names, #uses, #unbound uses, #shadowing binders)
-pub fn build(body: &XB, with_param: bool, variant_named_x: bool) -> (Program, Vec<String>, u32, u32, u32) {
+pub fn build(body: &XB, with_param: bool, variant_named_x: bool, early_variant_use: bool) -> (Program, Vec<String>, u32, u32, u32) {
     let mut el = Elab {
         n: Names::new(),
         unique: Vec::new(),
@@ -269,6 +269,21 @@ pub fn build(body: &XB, with_param: bool, variant_named_x: bool) -> (Program, Ve
         // an enum of the package with a (lower-case) variant spelled like every binder
         el.items.push(Item::Enum(EnumDef { name: "Low".into(), generics: vec![], variants: vec![("x".into(), vec![]), ("other".into(), vec![Ty::i32()])], derives: vec![] }));
     }
+    if early_variant_use {
+        // the variant itself is used (bare) before any binder of its spelling is
+        let l = el.other("l");
+        let k = el.other("k");
+        el.items.push(fn_def("early", vec![], Some(Ty::named("Low")), E::Ctor("Low".into(), "x".into(), false, vec![], vec![])));
+        el.items.push(fn_def(
+            "showLow",
+            vec![(l, Ty::named("Low"))],
+            Some(Ty::Unit),
+            E::Match(
+                Box::new(v(l)),
+                vec![(Pat::Ctor("Low".into(), "x".into(), true, vec![]), println(s("low-x"))), (Pat::Ctor("Low".into(), "other".into(), true, vec![Pat::Var(k)]), println(add(s("low-other"), i2s(v(k)))))],
+            ),
+        ));
+    }
     let (param, scope) = if with_param {
         let p = el.binder(&None);
         (p, Some(p))
@@ -277,7 +292,12 @@ pub fn build(body: &XB, with_param: bool, variant_named_x: bool) -> (Program, Ve
     };
     let b = el.block(body, &scope);
     el.items.push(fn_def("body", vec![(param, Ty::i32())], Some(Ty::i32()), b));
-    el.items.push(fn_def("main", vec![], None, block(vec![st(call("showI", vec![call("body", vec![int(100)])]))], None)));
+    let mut main_stmts = Vec::new();
+    if early_variant_use {
+        main_stmts.push(st(call("showLow", vec![call("early", vec![])])));
+    }
+    main_stmts.push(st(call("showI", vec![call("body", vec![int(100)])])));
+    el.items.push(fn_def("main", vec![], None, block(main_stmts, None)));
     let prog = Program::single(el.items, el.n.names.clone());
     (prog, el.unique, el.uses, el.unbound_uses, el.shadowing)
 }
@@ -305,7 +325,7 @@ impl Family for Scoping {
         &["C05", "C01", "C02", "C04"]
     }
     fn rule(&self) -> &'static str {
-        "binder-shape lattice: every function body made of <= 1 (quick) / <= 2 (thorough) depth-0 statements {let x, let (x,_), show, closure |x|} followed by a depth-1 tail {x, literal, if with one-statement blocks, if whose then-block has two statements (every pair), match binding x, match x => …}, with and without a parameter named x, every binder spelled `x`; every body whose binders are parameters and closure parameters only and whose uses are all bound also in a package that declares an enum with a variant spelled `x` (a pattern of that spelling is a constructor pattern); non-trivial = programs with a use whose innermost binder is shadowing another binder, or with an unbound use; distinct = distinct source text"
+        "binder-shape lattice: every function body made of <= 1 (quick) / <= 2 (thorough) depth-0 statements {let x, let (x,_), show, closure |x|} followed by a depth-1 tail {x, literal, if with one-statement blocks, if whose then-block has two statements (every pair), match binding x, match x => …}, with and without a parameter named x, every binder spelled `x`; every body whose binders are parameters and closure parameters only and whose uses are all bound also in a package that declares an enum with a variant spelled `x` (a pattern of that spelling is a constructor pattern), the enum in the same file, and in a second file of the package with the variant itself used bare in a function that comes first; non-trivial = programs with a use whose innermost binder is shadowing another binder, or with an unbound use; distinct = distinct source text"
     }
     fn cases(&self, tier: Tier) -> Box<dyn Iterator<Item = Value> + '_> {
         let n = bodies(tier).len();
@@ -327,8 +347,8 @@ impl Family for Scoping {
         let mut count = 0u64;
         let mut reported = std::collections::BTreeMap::<String, u32>::new();
         for (bi, body) in all[lo..hi].iter().enumerate() {
-            for (with_param, variant_named_x) in [(true, false), (false, false), (true, true), (false, true)] {
-                let (prog, unique, uses, unbound, shadowing) = build(body, with_param, variant_named_x);
+            for (with_param, variant_named_x, sibling) in [(true, false, false), (false, false, false), (true, true, false), (false, true, false), (true, true, true), (false, true, true)] {
+                let (prog, unique, uses, unbound, shadowing) = build(body, with_param, variant_named_x, sibling);
                 // with a variant spelled x in the package, a use without a binder means the variant
                 // (and a pattern spelled like a variant is a constructor pattern: only parameters and closure
                 // parameters can be binders of that name)
@@ -338,8 +358,8 @@ impl Family for Scoping {
                 count += 1;
                 let text = Printer::new(&prog.names).package(&prog.packages[0]);
                 let text2 = Printer::new(&unique).package(&prog.packages[0]);
-                let site_shape = format!("{}{}", shape_of(body), if variant_named_x { ";variant-named-x" } else { "" });
-                let subcase = json!({"index": lo + bi, "with_param": with_param, "variant_named_x": variant_named_x});
+                let site_shape = format!("{}{}{}", shape_of(body), if variant_named_x { ";variant-named-x" } else { "" }, if sibling { ";enum-in-sibling-file;variant-used-earlier" } else { "" });
+                let subcase = json!({"index": lo + bi, "with_param": with_param, "variant_named_x": variant_named_x, "sibling": sibling});
                 if shadowing > 0 && uses > 0 || unbound > 0 {
                     rep.more_keys.push(fnv(&text));
                 }
@@ -350,13 +370,16 @@ impl Family for Scoping {
                         rep.findings.push(Finding { property, class, site, detail, replay });
                     }
                 };
-                // (i) resolver agreement
+                // (i) resolver agreement (one file at a time: not for the two-file flavour)
                 let (t1, t2) = (toks(&text), toks(&text2));
                 if t1.len() != t2.len() {
                     rep.tag("machinery:token-misalignment");
                     continue;
                 }
                 let r = catch_unwind(AssertUnwindSafe(|| {
+                    if sibling {
+                        return None;
+                    }
                     let file = compiler::pipeline::pipeline::parse_ast_file(std::path::Path::new("m.gom"), &text).ok()?;
                     Some(hir::lower_to_hir(file))
                 }));
@@ -365,6 +388,7 @@ impl Family for Scoping {
                         let m = normalise_msg(&crate::oracle::panic_message(p));
                         push(&mut rep, "C05", "hir.panic".into(), format!("msg={}", m), m.clone(), json!({"kind": "scoping", "source": text}));
                     }
+                    Ok(None) if sibling => {}
                     Ok(None) => rep.tag("machinery:parse-failed"),
                     Ok(Some((_pkg, table, _diags))) => {
                         // binder positions: pattern variables and closure parameters carry their syntax pointers;
@@ -459,6 +483,7 @@ impl Family for Scoping {
                     let opts = DiffOpts {
                         props_sem: &["C05", "C01"],
                         props_reject: &["C05"],
+                        sibling_file_types: if sibling { &["Low"] } else { &[] },
                         ..DiffOpts::default()
                     };
                     let mut sub = Report::default();
